@@ -28,7 +28,7 @@ def make_world(tag, seq, opt):
     w.add('begin 1 %s' % hx(b'TestCfg'))
     w.add('begin 2 %s' % hx(b'TestCfg'))
     # a third Config with its own JSON format options, used first: it must not influence the others
-    w.add('cfg 3 %s - - none %s' % (hx('wide'), '80:%s:0' % hx('    ')))
+    w.add('cfg 3 %s - - none %s' % (hx('wide'), ['80:%s:0' % hx('    '), '80:-:0', '120:-:1'][len(seq) % 3]))
     w.add('begin 3 %s' % hx(b'TestWide'))
     w.add('json 3 3 s %s' % hx(b'{"keys":[1,2,3],"b":{"z":1,"a":2}}'))
     pairs = []
